@@ -259,7 +259,7 @@ func cmdCheck(args []string) int {
 		if v.f.Kind == "race" {
 			tries = 8
 		}
-		if v.f.Kind == "lockset" {
+		if v.f.Kind == "lockset" || v.f.Kind == "rlock" {
 			tries = -1 // lock-discipline obligation: nothing a single-goroutine native run could show
 		}
 		rq = append(rq, replayReq{job: v.job, kind: v.f.Kind, label: v.f.Label, model: v.f.Model, strs: strs, tries: tries})
@@ -291,7 +291,7 @@ func cmdCheck(args []string) int {
 				r.outcome += " (an earlier obligation of the same property fails first natively)"
 			}
 		}
-		if q.kind == "lockset" {
+		if q.kind == "lockset" || q.kind == "rlock" {
 			r.reproduced, r.outcome = true, "lock-discipline obligation, decided by the solver only (not natively replayable)"
 		}
 		if r.reproduced {
@@ -360,7 +360,7 @@ func (p *Prop) relevant(f Finding) bool {
 		return false
 	case "panic":
 		return p.Panics
-	case "deadlock", "spin":
+	case "deadlock", "spin", "rlock":
 		return p.Progress
 	case "lockset":
 		return p.Lockset
